@@ -1629,7 +1629,6 @@ func (e *Extractor) Document() (*model.Document, []Warning, error) {
 
 		// Create model page
 		modelPage := model.NewPage(width, height)
-		modelPage.Number = pageNum + 1
 
 		// Perform layout analysis
 		roResult := roDetector.Detect(fragments, width, height)
@@ -1725,6 +1724,9 @@ func (e *Extractor) Document() (*model.Document, []Warning, error) {
 		}
 
 		doc.AddPage(modelPage)
+		// AddPage numbers pages by insertion order; keep the source page number
+		// so that a page selection reports the true page.
+		modelPage.Number = pageNum + 1
 	}
 
 	return doc, e.warnings, nil
